@@ -33,6 +33,10 @@ def operands(rnd, n):
             2 ** 63 + 1, 2 ** 64, 2 ** 64 - 1, -2 ** 64, 2 ** 127, 2 ** 127 - 1, -2 ** 127, 2 ** 128, 10 ** 18, 10 ** 19,
             9999, 10000, 10 ** 40]
     out = []
+    # every ordered pair of the values around the Short / Long boundary (division, remainder and
+    # comparison have arms per representation pair; -2^63 is Short while +2^63 is Long)
+    edge = [2 ** 63, -2 ** 63, 2 ** 63 - 1, -2 ** 63 - 1, 2 ** 63 + 1, -2 ** 63 + 1, 1, -1, 2 ** 64, -2 ** 64 - 1]
+    out += [(x, y) for x in edge for y in edge]
     for _ in range(n):
         def one():
             if rnd.random() < 0.55:
@@ -61,6 +65,10 @@ def program(a, b, e):
           "let r_mod = a % b;", "let r_dfl = div_floor(a, b);", "let r_dcl = div_ceil(a, b);",
           "let r_pow = a ** %d;" % e,
           "let aa = abs(a);", "let bb = abs(b);", "let r_and = aa & bb;", "let r_or = aa | bb;", "let r_xor = aa ^ bb;",
+          # signed operands: integers are infinite two's complement
+          "let n_and = a & b;", "let n_or = a | b;", "let n_xor = a ^ b;",
+          "let m8 = a & 255;", "let q8 = a % 256;", "let m64 = a & %s;" % lit(2 ** 64 - 1), "let q64 = a %% %s;" % lit(2 ** 64),
+          "let m3 = b & 3;", "let q3 = b % 4;",
           "let r_gcd = gcd(a, b);", "let a1 = div_floor(a, r_gcd);", "let b1 = div_floor(b, r_gcd);", "let cof = gcd(a1, b1) == 1;",
           "let r_lcm = lcm(a, b);",
           "let r_str = a.to_str();", "let r_back = to_int(r_str);",
@@ -182,6 +190,14 @@ def run(chk, tier, seed):
         if all(v[x].get("t") == "int" for x in ("r_and", "r_or", "r_xor")):
             ev(j, {"ev": "bits", "a": limbs(abs(a)), "b": limbs(abs(b)), "and": limbs(v["r_and"]["v"]), "or": limbs(v["r_or"]["v"]),
                    "xor": limbs(v["r_xor"]["v"])}, "bit_and/or/xor(%d, %d)" % (abs(a), abs(b)))
+        if all(v[x].get("t") == "int" for x in ("n_and", "n_or", "n_xor")):
+            ev(j, {"ev": "sbits", "a": A, "b": Bv, "and": limbs(v["n_and"]["v"]), "or": limbs(v["n_or"]["v"]), "xor": limbs(v["n_xor"]["v"])},
+               "signed bit_and/or/xor(%d, %d)" % (a, b))
+        else:
+            chk.violation("bitwise operators on (%d, %d) did not yield integers: %s" % (a, b, [v[x] for x in ("n_and", "n_or", "n_xor")]), {"kind": "bigint", "source": j["src"], "binding": "n_and"})
+        for mk, qk, what in (("m8", "q8", "%d & 255" % a), ("m64", "q64", "%d & (2**64 - 1)" % a), ("m3", "q3", "%d & 3" % b)):
+            if v[mk].get("t") == "int" and v[qk].get("t") == "int":
+                ev(j, {"ev": "mask", "and": limbs(v[mk]["v"]), "mod": limbs(v[qk]["v"])}, what + " against the floored remainder")
         if not (a == 0 and b == 0) and v["r_gcd"].get("t") == "int" and v["a1"].get("t") == "int":
             ev(j, {"ev": "gcd", "a": A, "b": Bv, "g": limbs(v["r_gcd"]["v"]), "a1": limbs(v["a1"]["v"]), "b1": limbs(v["b1"]["v"]),
                    "cof1": v["cof"].get("v") is True}, "gcd(%d, %d)" % (a, b))
